@@ -478,8 +478,10 @@ func pointT(p jpoint) string {
 		nameT(p.Meas), vh.N(uint64(p.Series)), vh.Bool(p.TimeTag), vh.Bool(p.Series >= 2), vh.Z(p.T), vh.List(fs))
 }
 
-// shape of the known finding: some point carries a field named time next to another field.
-func caseSig(c *jcase) string {
+// hasTimeField: some point carries a field named time next to another field (the shape of the
+// former finding time-field-written; repaired, so it carries no signature any more: a regression
+// is a VIOLATION).
+func hasTimeField(c *jcase) bool {
 	for _, st := range c.Steps {
 		for _, p := range st.Points {
 			hasTime, hasOther := false, false
@@ -491,11 +493,11 @@ func caseSig(c *jcase) string {
 				}
 			}
 			if hasTime && hasOther {
-				return "time-field-written"
+				return true
 			}
 		}
 	}
-	return ""
+	return false
 }
 
 func run(w *vh.W, c *jcase) {
@@ -577,12 +579,12 @@ func run(w *vh.W, c *jcase) {
 		w.Count("dropped", fmt.Sprint(st.Dropped))
 		w.Count("batch", fmt.Sprint(len(st.Points)))
 	}
-	sig := caseSig(c)
+	sig := ""
+	w.Count("time_field_next_to_valid", fmt.Sprint(hasTimeField(c)))
 	term := fmt.Sprintf("{| c_vk := %s; c_steps := %s; c_final_schema := %s; c_final_raw := %s; c_final_reads := %s |}",
 		vh.Bool(c.ValidateKeys), vh.List(ts), schemaT(c.FinalSchema), rawT(c.FinalRaw), readsT(c.FinalReads))
 	idx := w.Add(term, c, nontrivial, sig)
-	w.Count("sig", sig)
-	w.Count("validate_keys", fmt.Sprint(c.ValidateKeys))
+		w.Count("validate_keys", fmt.Sprint(c.ValidateKeys))
 	if machinery != nil {
 		w.Fail(idx, machinery.Error(), sig)
 	}
@@ -611,17 +613,17 @@ func corpus() []jcase {
 		{ValidateKeys: true, Steps: []jstep{{Points: []jpoint{pt("m0", 0, 1, fl("a", 1, 1))}}, {Points: []jpoint{pt("m0", 0, 2, fl("a", 2, 1)), pt("m0", 3, 2, fl("a", 1, 1)), pt("m0", 0, 2, fl("time", 1, 1))}}}},
 		// overwrite of the same timestamp by an accepted point, not by a rejected one
 		{ValidateKeys: false, Steps: []jstep{{Points: []jpoint{pt("m0", 0, 1, fl("a", 2, 1))}}, {Points: []jpoint{pt("m0", 0, 1, fl("a", 1, 9)), pt("m0", 0, 1, fl("a", 2, 2))}}}},
-		// F13: a field named time next to a valid field is reported stripped
+		// former finding F13: a field named time next to a valid field is reported stripped and must not be stored
 		{ValidateKeys: false, Steps: []jstep{{Points: []jpoint{pt("m0", 0, 1, fl("a", 1, 1), fl("time", 2, 7))}}}},
 		{ValidateKeys: false, Steps: []jstep{{Points: []jpoint{pt("m0", 0, 1, fl("time", 2, 7), fl("a", 1, 1)), pt("m0", 1, 1, fl("a", 2, 1))}}}},
-		// ... and with another type later: the whole batch fails with a non-partial error and is not durable
+		// ... and with another type later: an ordinary partial success, durable
 		{ValidateKeys: false, Steps: []jstep{{Points: []jpoint{pt("m0", 0, 1, fl("a", 1, 1), fl("time", 2, 7))}}, {Points: []jpoint{pt("m0", 0, 2, fl("a", 1, 2), fl("time", 1, 8)), pt("m0", 1, 2, fl("a", 1, 3))}}}},
 	}
 }
 
 func main() {
 	w := vh.New("C40", "From Verif Require Import Base.Prelude Model.C10 Model.C40."+nameDefs(), "case", "check")
-	w.Rule = "2-4 batches of 1-8 points over 2 measurements x 4 series (2 with an invalid-unicode tag) x fields {a,b,time} x 5 types x 3 timestamps, Config.ValidateKeys on/off; per point: tag time (1/10), only field time (1/12), field time next to valid ones (1/16 of cases enable it), oversize string (1/25), string of exactly MaxFieldValueLength (1/40), type biased 2:1 to the type first used for the field. Non-trivial: some batch is genuinely partial (0 < Dropped < batch size). Distinct: distinct Gallina terms."
+	w.Rule = "2-4 batches of 1-8 points over 2 measurements x 4 series (2 with an invalid-unicode tag) x fields {a,b,time} x 5 types x 3 timestamps, Config.ValidateKeys on/off; per point: tag time (1/10), only field time (1/12), field time next to valid ones (1/6 of cases enable it), oversize string (1/25), string of exactly MaxFieldValueLength (1/40), type biased 2:1 to the type first used for the field. Non-trivial: some batch is genuinely partial (0 < Dropped < batch size). Distinct: distinct Gallina terms."
 	var rc jcase
 	if w.ReplayCase(&rc) {
 		run(w, &rc)
@@ -639,7 +641,7 @@ func main() {
 	typs := []int{1, 2, 3, 4, 9}
 	for w.Len() < w.N {
 		c := jcase{ValidateKeys: r.IntN(2) == 0}
-		allowTime := r.IntN(16) == 0
+		allowTime := r.IntN(6) == 0
 		known := map[string]int{}
 		nb := 2 + r.IntN(3)
 		for b := 0; b < nb; b++ {
